@@ -24,7 +24,12 @@ subject: an update is its exploded announcement / withdrawal lists.
 Variants: `sc` — `process_state_change` queries the register without
 (`asWritten`) / with (`repaired`) the unit's parent id; `iso` — a panic inside
 `process_file` kills the only queue consumer task (`asWritten`) / is confined
-to that file (`repaired`: the file runs in its own task).
+to that file (`repaired`: the file runs in its own task); `ov` — `process_message`
+turns an UPDATE into `explode_announcements` followed by `explode_withdrawals`
+(`asWritten`: a prefix the UPDATE both withdraws and announces leaves as `+p … -p`) /
+calls `explode_update` (`repaired`, commit 2186599: the withdrawal of a prefix that
+the same UPDATE announces is dropped, RFC 4271 4.3). An UPDATE of this model has
+one family, so "same NLRI" is "same prefix number".
 -/
 namespace Rotonda.Mrt
 
@@ -99,10 +104,19 @@ inductive Site | asWritten | repaired
 structure Variant where
   sc : Site
   iso : Site
+  ov : Site
   deriving DecidableEq, Repr
 
-def asWritten : Variant := ⟨.asWritten, .asWritten⟩
-def repaired : Variant := ⟨.repaired, .repaired⟩
+def asWritten : Variant := ⟨.asWritten, .asWritten, .asWritten⟩
+def repaired : Variant := ⟨.repaired, .repaired, .repaired⟩
+
+/-- The withdrawals of one UPDATE that `process_message` hands on: all of them
+    (`explode_withdrawals`, as written) / those whose prefix the UPDATE does not announce
+    (`explode_update`: `unreach.retain(|w| !reach.iter().any(|a| a.same_nlri(w)))`). -/
+def keptWd (v : Variant) (ann wd : List Nat) : List Nat :=
+  match v.ov with
+  | .asWritten => wd
+  | .repaired => wd.filter (fun p => !ann.contains p)
 
 inductive Status | ok | err | panic
   deriving DecidableEq, Repr
@@ -150,7 +164,7 @@ def msgLoop (v : Variant) (parent : Nat) : Reg → List Rec → Res
       | some id => (reg, id)
       | none => reg.register parent p
     let r := msgLoop v parent reg1 rest
-    ⟨r.reg, .bulk id v6 ann wd :: r.out, r.status⟩
+    ⟨r.reg, .bulk id v6 ann (keptWd v ann wd) :: r.out, r.status⟩
   | reg, .msg _ _ :: rest => msgLoop v parent reg rest
   | reg, .stateChange p old new :: rest =>
     let w : List Upd :=
